@@ -68,6 +68,11 @@ Definition wf_text_def (fs : fspell) (d : defn) : bool :=
   | DGlobal t m init => plain_word t && forallb (wf_text fs) init
   | DFunc r locals instructions =>
       String.eqb (fst r) "type" && forallb plain_word locals && forallb (wf_text fs) instructions
+  | DType params results => forallb plain_word params && forallb plain_word results
+  | DStart r => String.eqb (fst r) "func"
+  | DElem tab offset refs =>
+      String.eqb (fst tab) "table" && (snd tab =? 0) && forallb (wf_text fs) offset &&
+      forallb (fun r : (string * Z)%type => String.eqb (fst r) "func") refs
   | _ => false
   end.
 
@@ -136,11 +141,76 @@ Proof.
     + apply (print_head_safe fs i a _ Hi Ea).
 Qed.
 
+Lemma parse_groups_cons kw f w r : parse_groups kw (S f) (TLpar :: TWord w :: r) =
+  if String.eqb w kw then
+    '(l, r1) <- parse_words (S (List.length r)) r ;;
+    '(l', r2) <- parse_groups kw f r1 ;; Ok (l ++ l', r2)
+  else Ok ([], TLpar :: TWord w :: r).
+Proof. reflexivity. Qed.
+
+Lemma parse_groups_one kw ws tail f : forallb plain_word ws = true -> ws <> [] ->
+  (forall f', parse_groups kw (S f') tail = Ok ([], tail)) ->
+  parse_groups kw (S (S f)) (TLpar :: TWord kw :: map lex_word ws ++ TRpar :: tail) = Ok (ws, tail).
+Proof.
+  intros Hw Hne Ht. rewrite parse_groups_cons. rewrite String.eqb_refl.
+  rewrite (parse_words_rt ws tail _ Hw) by (rewrite app_length, map_length; cbn; lia). cbn [bind].
+  rewrite Ht. cbn [bind]. now rewrite app_nil_r.
+Qed.
+
+Definition group_pieces (kw : string) (ws : list string) : list piece :=
+  match ws with [] => [] | _ => [PL; PW kw] ++ map PW ws ++ [PR] end.
+
+Lemma groups_rt kw ws tail fuel : lex_word kw = TWord kw -> forallb plain_word ws = true ->
+  (2 <= fuel)%nat -> (forall f', parse_groups kw (S f') tail = Ok ([], tail)) ->
+  parse_groups kw fuel (lex (group_pieces kw ws) ++ tail) = Ok (ws, tail).
+Proof.
+  intros Hk Hw Hf Ht. destruct fuel as [|[|f]]; try lia.
+  destruct ws as [|w ws]; [apply Ht|].
+  unfold group_pieces. rewrite !lex_app. change (lex [PL; PW kw]) with [TLpar; lex_word kw].
+  change (lex [PR]) with [TRpar]. rewrite Hk, lex_map_PW, <- !app_assoc. cbn [List.app].
+  apply parse_groups_one; auto. discriminate.
+Qed.
+
+Lemma parse_groups_skip kw w tail f : String.eqb w kw = false ->
+  parse_groups kw (S f) (TLpar :: TWord w :: tail) = Ok ([], TLpar :: TWord w :: tail).
+Proof. intros H. cbn [parse_groups]. now rewrite H. Qed.
+
+Lemma parse_groups_rpar kw tail f : parse_groups kw (S f) (TRpar :: tail) = Ok ([], TRpar :: tail).
+Proof. reflexivity. Qed.
+
+Lemma lex_map_PWf {A} (g : A -> string) l : lex (map (fun x => PW (g x)) l) = map lex_word (map g l).
+Proof. induction l; cbn; [reflexivity|]. f_equal. exact IHl. Qed.
+
+Lemma parse_func_refs_rt refs tail :
+  forallb (fun r : (string * Z)%type => String.eqb (fst r) "func") refs = true ->
+  parse_func_refs (map lex_word (map (fun r : ref => dec (snd r)) refs) ++ TRpar :: tail) = (refs, TRpar :: tail).
+Proof.
+  induction refs as [|[sp z] refs IH]; cbn [forallb]; intros H; [reflexivity|].
+  apply andb_true_iff in H. destruct H as [Hx Hl]. cbn [fst] in Hx. apply String.eqb_eq in Hx. subst sp.
+  cbn [map snd List.app]. rewrite lex_dec. cbn [parse_func_refs]. rewrite (IH Hl). reflexivity.
+Qed.
+
 Theorem text_def_rt fs d ps rest :
   wf_text_def fs d = true -> print_def fs d = Ok ps ->
   parse_def fs (lex ps ++ rest) = Ok (d, rest).
 Proof.
   destruct d; cbn [wf_text_def]; try discriminate; intros Hwf Hp; cbn [print_def] in Hp.
+  - (* type *)
+    apply andb_true_iff in Hwf. destruct Hwf as [Hps Hrs].
+    assert (Eps : ps = [PL; PW "type"; PL; PW "func"] ++ group_pieces "param" params ++
+                       group_pieces "result" results ++ [PR; PR]) by (injection Hp as <-; reflexivity).
+    subst ps. clear Hp. rewrite !lex_app.
+    change (lex [PL; PW "type"; PL; PW "func"]) with [TLpar; TWord "type"; TLpar; TWord "func"].
+    change (lex [PR; PR]) with [TRpar; TRpar]. rewrite <- !app_assoc. cbn [List.app].
+    unfold parse_def. cbn [String.eqb Ascii.eqb Bool.eqb].
+    set (t2 := lex (group_pieces "result" results) ++ TRpar :: TRpar :: rest).
+    rewrite (groups_rt "param" params t2);
+      [|reflexivity|exact Hps|rewrite app_length; unfold t2; rewrite app_length; cbn; lia
+       |intros f'; unfold t2; destruct results; [apply parse_groups_rpar|reflexivity]].
+    cbn [bind]. unfold t2.
+    rewrite (groups_rt "result" results (TRpar :: TRpar :: rest));
+      [|reflexivity|exact Hrs|rewrite app_length; cbn; lia|intros; apply parse_groups_rpar].
+    reflexivity.
   - (* table *)
     injection Hp as <-. apply andb_true_iff in Hwf. destruct Hwf as [Hk Hz].
     assert (Hkw : lex_word kind = TWord kind).
@@ -174,6 +244,25 @@ Proof.
       rewrite (instr_list_rt fs init body _ (TRpar :: rest) Hi Eb)
         by (auto; pose proof (print_instrs_len fs init body Hi Eb); rewrite app_length; unfold lex; rewrite map_length; cbn; lia).
       reflexivity.
+  - (* start *)
+    injection Hp as <-. apply String.eqb_eq in Hwf. destruct r as [sp z]. cbn [fst snd] in *. subst sp.
+    cbn [lex map lex_piece List.app]. change (lex_word "start") with (TWord "start"). rewrite lex_dec. reflexivity.
+  - (* elem *)
+    apply andb_true_iff in Hwf. destruct Hwf as [Hwf Hrefs]. apply andb_true_iff in Hwf. destruct Hwf as [Hwf Hi].
+    apply andb_true_iff in Hwf. destruct Hwf as [Htab Hz]. apply String.eqb_eq in Htab.
+    destruct tab as [sp tz]. cbn [fst snd] in *. subst sp. rewrite Hz in Hp. cbn [negb] in Hp.
+    apply Z.eqb_eq in Hz. subst tz.
+    destruct (print_instrs fs offset) as [body| | |] eqn:Eb; try discriminate. cbn [bind] in Hp.
+    assert (Eps : ps = [PL; PW "elem"; PL; PW "offset"] ++ body ++ [PR] ++
+                       map (fun r : ref => PW (dec (snd r))) refs ++ [PR]) by (injection Hp as <-; reflexivity).
+    subst ps. clear Hp. rewrite !lex_app, lex_map_PWf.
+    change (lex [PL; PW "elem"; PL; PW "offset"]) with [TLpar; TWord "elem"; TLpar; TWord "offset"].
+    change (lex [PR]) with [TRpar]. rewrite <- !app_assoc. cbn [List.app].
+    unfold parse_def. cbn [String.eqb Ascii.eqb Bool.eqb].
+    set (tl := map lex_word (map (fun r : ref => dec (snd r)) refs) ++ TRpar :: rest).
+    rewrite (instr_list_rt fs offset body _ (TRpar :: tl) Hi Eb)
+      by (auto; pose proof (print_instrs_len fs offset body Hi Eb); rewrite app_length; unfold lex; rewrite map_length; cbn; lia).
+    cbn [bind]. unfold tl. rewrite (parse_func_refs_rt refs rest Hrefs). reflexivity.
   - (* func *)
     apply andb_true_iff in Hwf. destruct Hwf as [Hwf Hi]. apply andb_true_iff in Hwf. destruct Hwf as [Hr Hl].
     apply String.eqb_eq in Hr. destruct r as [sp ty]. cbn [fst snd] in *. subst sp.
@@ -203,4 +292,63 @@ Proof.
       rewrite (parse_words_rt ws tl _ Hl) by (rewrite app_length, map_length; cbn; lia). cbn [bind].
       cbn [List.length]. rewrite (parse_locals_none _ _ Hhead). cbn [bind]. rewrite app_nil_r.
       rewrite Hbody by lia. reflexivity.
+Qed.
+
+(* ------------------------------------------------------------------ the (module ...) loop *)
+Lemma print_def_head fs d ps : wf_text_def fs d = true -> print_def fs d = Ok ps ->
+  exists k ps', ps = PL :: PW k :: ps' /\ lex_word k = TWord k.
+Proof.
+  destruct d; cbn [wf_text_def]; try discriminate; intros Hwf Hp; cbn [print_def] in Hp.
+  - injection Hp as <-. eexists _, _. split; [reflexivity|reflexivity].
+  - injection Hp as <-. eexists _, _. split; [reflexivity|reflexivity].
+  - injection Hp as <-. eexists _, _. split; [reflexivity|reflexivity].
+  - destruct (print_instrs fs init); try discriminate. injection Hp as <-. eexists _, _. split; reflexivity.
+  - injection Hp as <-. eexists _, _. split; reflexivity.
+  - destruct (negb (snd tab =? 0)); try discriminate. destruct (print_instrs fs offset); try discriminate.
+    injection Hp as <-. eexists _, _. split; reflexivity.
+  - destruct (print_instrs fs instructions); try discriminate. injection Hp as <-. eexists _, _. split; reflexivity.
+Qed.
+
+Theorem text_defs_rt fs : forall l ps fuel rest,
+  forallb (wf_text_def fs) l = true -> print_defs fs l = Ok ps -> (List.length l < fuel)%nat ->
+  parse_defs fs fuel (lex ps ++ TRpar :: rest) = Ok (l, TRpar :: rest).
+Proof.
+  induction l as [|d l IH]; intros ps fuel rest Hwf Hp Hf; (destruct fuel as [|f]; [cbn in Hf; lia|]).
+  - cbn in Hp. injection Hp as <-. reflexivity.
+  - cbn [forallb] in Hwf. apply andb_true_iff in Hwf. destruct Hwf as [Hd Hl]. cbn [print_defs] in Hp.
+    destruct (print_def fs d) as [a| | |] eqn:Ea; try discriminate. cbn [bind] in Hp.
+    destruct (print_defs fs l) as [b| | |] eqn:Eb; try discriminate. cbn [bind] in Hp. injection Hp as <-.
+    rewrite lex_app, <- app_assoc.
+    destruct (print_def_head fs d a Hd Ea) as (k & a' & -> & Hk).
+    pose proof (text_def_rt fs d _ (lex b ++ TRpar :: rest) Hd Ea) as P.
+    cbn [parse_defs]. cbn [lex map lex_piece List.app] in P |- *. rewrite P. cbn [bind].
+    rewrite (IH b f rest Hl eq_refl) by (cbn in Hf; lia). reflexivity.
+Qed.
+
+Theorem text_module_rt fs l ps :
+  forallb (wf_text_def fs) l = true -> print_module fs l = Ok ps ->
+  parse_module_text fs (lex ps) = Ok l.
+Proof.
+  intros Hwf Hp. unfold print_module in Hp.
+  destruct (print_defs fs l) as [b| | |] eqn:Eb; try discriminate. cbn [bind] in Hp.
+  assert (Eps : ps = [PL; PW "module"] ++ b ++ [PR]) by (injection Hp as <-; reflexivity). subst ps. clear Hp.
+  rewrite !lex_app. change (lex [PL; PW "module"]) with [TLpar; TWord "module"]. change (lex [PR]) with [TRpar].
+  cbn [List.app]. unfold parse_module_text. cbn [String.eqb Ascii.eqb Bool.eqb].
+  pose proof (text_defs_rt fs l b (S (List.length (lex b ++ [TRpar]))) [] Hwf Eb) as P.
+  assert (Hlen : (List.length l <= List.length b)%nat).
+  { clear -Hwf Eb. revert b Eb. induction l as [|d l IH]; intros b Eb; [cbn; lia|].
+    cbn [forallb] in Hwf. apply andb_true_iff in Hwf. destruct Hwf as [Hd Hl]. cbn [print_defs] in Eb.
+    destruct (print_def fs d) as [a| | |] eqn:Ea; try discriminate. cbn [bind] in Eb.
+    destruct (print_defs fs l) as [b'| | |] eqn:Eb'; try discriminate. cbn [bind] in Eb. injection Eb as <-.
+    destruct (print_def_head fs d a Hd Ea) as (k & a' & -> & _). rewrite app_length. pose proof (IH Hl b' eq_refl). cbn. lia. }
+  rewrite P by (rewrite app_length; unfold lex; rewrite map_length; cbn; lia).
+  destruct (lex b ++ [TRpar]) as [|t0 ts0] eqn:Ets; [destruct (lex b); discriminate|].
+  assert (Hnw : match t0 with TWord _ => False | _ => True end).
+  { destruct l as [|d l'].
+    - cbn in Eb. injection Eb as <-. cbn in Ets. injection Ets as <- <-. exact I.
+    - cbn [forallb] in Hwf. apply andb_true_iff in Hwf. destruct Hwf as [Hd _]. cbn [print_defs] in Eb.
+      destruct (print_def fs d) as [a| | |] eqn:Ea; try discriminate. cbn [bind] in Eb.
+      destruct (print_defs fs l') as [b'| | |]; try discriminate. cbn [bind] in Eb. injection Eb as <-.
+      destruct (print_def_head fs d a Hd Ea) as (k & a' & -> & _). cbn in Ets. injection Ets as <- _. exact I. }
+  destruct t0; try contradiction; reflexivity.
 Qed.
